@@ -165,6 +165,20 @@ fn tiny_inputs(thorough: bool) -> Vec<(String, Vec<u8>)> {
     v
 }
 
+fn copy_dir(src: &std::path::Path, dst: &std::path::Path) -> std::io::Result<()> {
+    std::fs::create_dir_all(dst)?;
+    for entry in std::fs::read_dir(src)? {
+        let entry = entry?;
+        let to = dst.join(entry.file_name());
+        if entry.file_type()?.is_dir() {
+            copy_dir(&entry.path(), &to)?;
+        } else {
+            std::fs::copy(entry.path(), &to)?;
+        }
+    }
+    Ok(())
+}
+
 //------------ XML-level mutations (validly signed) ----------------------------
 
 fn xml_mutations(orig: &[u8], thorough: bool) -> Vec<(String, Vec<u8>)> {
@@ -676,6 +690,21 @@ pub fn run(tier: &Tier, args: &[String]) -> i32 {
                         match r {
                             Ok(_) => {
                                 *oc.entry(format!("{part}: answered")).or_default() += 1;
+                                // an answered revocation / update has taken
+                                // effect: put the key / object back so that
+                                // the following mutations of the same message
+                                // meet the same state
+                                let restore = match target {
+                                    "up-revoke" => Some(Req::Up { key: "A".into(), sender: "alice".into(), recipient: "parent".into(), target: "parent".into(), kind: "issue".into() }),
+                                    "pub-update" => Some(Req::Pub { key: "A".into(), path: "alice".into(), kind: "restore_own".into() }),
+                                    _ => None,
+                                };
+                                if let Some(rr) = restore
+                                    && let Ok(bytes) = c12::message(&ctx, &rr)
+                                {
+                                    let ok = std::panic::catch_unwind(std::panic::AssertUnwindSafe(|| c12::send(&w, &rr, bytes))).map(|r| r.is_ok()).unwrap_or(false);
+                                    *oc.entry(format!("{part}: restored {}", if ok { "ok" } else { "not needed / refused" })).or_default() += 1;
+                                }
                                 baseline = disk_listing();
                             }
                             Err(_) => {
@@ -745,6 +774,9 @@ pub fn run(tier: &Tier, args: &[String]) -> i32 {
             let bodies = build_api_fixture().expect("fixture");
             let config = crate::world::make_config(&WorldCfg::default());
             let mut daemon = Daemon::open(config.clone(), false).expect("daemon");
+            let pristine = std::path::PathBuf::from(format!("../pristine-api-{k}"));
+            let _ = std::fs::remove_dir_all(&pristine);
+            copy_dir(std::path::Path::new("."), &pristine).expect("pristine copy");
             // sanity: the daemon serves the fixture
             let r = daemon.get("/api/v1/cas/ca/routes");
             if r.status != 200 {
@@ -847,7 +879,20 @@ pub fn run(tier: &Tier, args: &[String]) -> i32 {
                 }
                 *oc.entry(format!("{}: {}", case.part, reply.status)).or_default() += 1;
                 if reply.status >= 200 && reply.status < 300 {
-                    baseline = disk_listing();
+                    // an accepted request that changed something: put the
+                    // fixture back, so that every case meets the same state
+                    // (a deleted child or CA would make the rest vacuous)
+                    if disk_listing() != baseline {
+                        drop(daemon);
+                        for d in ["data", "repo"] {
+                            let _ = std::fs::remove_dir_all(d);
+                            copy_dir(&pristine.join(d), std::path::Path::new(d)).expect("restore");
+                        }
+                        daemon = Daemon::open(config.clone(), false).expect("daemon reopen");
+                        *oc.entry("fixture restored".into()).or_default() += 1;
+                        baseline = disk_listing();
+                        continue;
+                    }
                 } else {
                     let now = disk_listing();
                     if now != baseline {
